@@ -6,3 +6,6 @@ from vf.proofs.plumbing import run_plumbing
 
 def run_proofs(ctx):
     run_plumbing(ctx)
+    from vf.proofs import materialize
+
+    materialize.run_proofs(ctx)
